@@ -133,13 +133,15 @@ class G:
                     blk = blk + [ay]
                 blocks.append(blk or [("sl", ("i", 1))])
             conds = [self.bool_expr(1, base) for _ in range(nb)]
+            again = [("as", x, ("i", r.randint(0, 9)) if typ == "int" else ("b", r.random() < 0.5))] + ([("wr", ("v", x))] if typ == "int" else [])
+            again = again if r.random() < 0.5 else []
             if k == "if":
-                return [("if", conds[0], blocks[0], [])]
+                return [("if", conds[0], blocks[0], [])] + again
             if k == "ifelse":
                 out = [("if", conds[0], blocks[0], blocks[1])]
             else:
                 out = [("if", conds[0], blocks[0], [("if", conds[1], blocks[1], blocks[2])])]
-            return out
+            return out + again
         if k == "for":
             self.loopvars += 1
             iv = f"i{self.loopvars}"
@@ -147,7 +149,8 @@ class G:
             body = [first] + self.block(self.max_depth - 2, base, True, r.randint(0, 2))
             if typ == "int":
                 body.append(("aug", x, "add", ("v", iv)))
-            return [("for", iv, ("i", r.randint(0, 3)), body)]
+            again = [("as", x, ("i", r.randint(0, 9)) if typ == "int" else ("b", True))] if r.random() < 0.5 else []
+            return [("for", iv, ("i", r.randint(0, 3)), body)] + again
         self.counters += 1
         cn = f"n{self.counters}"
         x, typ, first = self.new_assign(base)
@@ -170,6 +173,13 @@ class G:
                 body_pre += self.top_stmt_promoting(names)
         else:
             body_pre = self.block(self.max_depth, names, False, r.randint(1, 5))
+            # a NEW top-level name first assigned late in the prologue, from names that earlier statements may have changed
+            for _ in range(r.randint(0, 2)):
+                self.fresh += 1
+                inames = [n for n in names if n in INTS]
+                late = ("as", f"v{self.fresh}", r.choice([self.int_expr(1, inames), ("bin", "add", ("v", r.choice(inames)), ("i", r.randint(0, 9))), ("v", r.choice(inames))]))
+                pos = r.randint(0, len(body_pre))
+                body_pre = body_pre[:pos] + [late, ("wr", ("v", late[1]))] + body_pre[pos:]
         loop = None
         if with_loop if with_loop is not None else r.random() < 0.7:
             loop = self.block(self.max_depth - 1, names, False, r.randint(1, 4))
